@@ -523,8 +523,8 @@ PROPS["C14"] = dict(
          "cannot enter the journal critical section while another thread is inside, and the final content of every key is compared with 'acknowledged writes in seqno order'",
     trusted_base=CONC_TB,
     assumptions=["the write-stall clause is proved on the Stall model (one keyspace; rotation requests with memtable generations, flush = all sealed memtables, compaction messages, "
-                 "bounded channel, journal lock), tied step by step by the stall engine and at scenario level by the stall probe and the worker-channel probe (a full channel is only "
-                 "reached there); L0-run throttling (sleep loops on l0_run_count), worker 0 handing compactions on, several keyspaces and compaction progress inside lsm-tree are not "
+                 "bounded channel, journal lock), tied step by step by the stall engine (half of its cases with a worker channel of 2-6 messages through the capacity hook, so that a full channel is reached) "
+                 "and at scenario level by the stall probe and the worker-channel probe (the real capacity of 1000); L0-run throttling (sleep loops on l0_run_count), worker 0 handing compactions on, several keyspaces and compaction progress inside lsm-tree are not "
                  "modelled; fairness of the OS scheduler is assumed"],
     level_text="Lean 4 theorems over all programs and schedules (linearization by forward simulation with explicit linearization points, bracket discipline of the history, order agreement); "
                "tied to the real crate by schedule-controlled runs of real threads",
